@@ -88,3 +88,16 @@ Proof.
   - destruct (IH _ H) as (obs & Ho & ->). exists (None :: obs). split; [|reflexivity].
     constructor; [exact Logic.I|assumption].
 Qed.
+
+(* ---- the integrations report in a deferred function, after a successful Allow ---- *)
+Lemma link_shedhandler_calls :
+  C09_Gen.shedhandler_calls = ["return"; "return"; "ensureSheddingStat"; "sheddingStat.IncrTotal"; "shedder.Allow";
+    "metrics.AddDrop"; "sheddingStat.IncrDrop"; "httpx.GetRemoteAddr"; "r.UserAgent"; "logx.Errorf"; "w.WriteHeader";
+    "return"; "defer:func"; "{"; "promise.Fail"; "sheddingStat.IncrPass"; "promise.Pass"; "}"; "next.ServeHTTP";
+    "http.HandlerFunc"; "return"; "return"]%string.
+Proof. reflexivity. Qed.
+Lemma link_shedint_calls :
+  C09_Gen.shedint_calls = ["ensureSheddingStat"; "sheddingStat.IncrTotal"; "shedder.Allow"; "metrics.AddDrop";
+    "sheddingStat.IncrDrop"; "return"; "defer:func"; "{"; "promise.Fail"; "sheddingStat.IncrPass"; "promise.Pass"; "}";
+    "handler"; "return"; "return"]%string.
+Proof. reflexivity. Qed.
